@@ -6,7 +6,7 @@ import ast, json, os, sys
 HERE = os.path.dirname(os.path.dirname(os.path.abspath(__file__)))
 sys.path.insert(0, HERE)
 from pathlib import Path
-from sa.alpha import alpha, functions_of, inlined_key
+from sa.alpha import alpha, functions_of, inlined_key, local_features, local_uses
 root = Path(sys.argv[1] if len(sys.argv) > 1 else "/repo")
 out = {}
 sources = {}
@@ -29,7 +29,7 @@ for p in sorted((root / "pynetdicom").rglob("*.py")):
         body = fn.body[1:] if fn.body and isinstance(fn.body[0], ast.Expr) and isinstance(fn.body[0].value, ast.Constant) and isinstance(fn.body[0].value.value, str) else fn.body
         if not body:
             continue
-        rec[q] = {"key": key, "names": order, "ikey": inlined_key(fn)}
+        rec[q] = {"key": key, "names": order, "ikey": inlined_key(fn), "feat": [f for _, f in local_features(fn)], "uses": local_uses(fn)}
         saved = fn.body
         fn.body = body
         srcs[q] = ast.unparse(fn)
